@@ -2,6 +2,7 @@
 # ./selftest.sh determinism [runs]   every run index of every batch of every property is executed in separate
 #                                    processes: twice with one worker, and split over 4 and 16 workers; the
 #                                    hashes of the complete recorded histories must be identical.
+# ./selftest.sh silence             every property-preserving change under benign/ must leave the listed checks silent
 # ./selftest.sh sensitivity [glob]   every seeded change (or those whose id matches the glob, e.g. '*-[gh]') under seeded/ must be caught by the check recorded in
 #                                    its meta.json (applies it to /repo, runs the check, reverts).
 cd /verif || exit 2
@@ -39,5 +40,22 @@ sensitivity)
     done
   done
   exit $FAIL ;;
-*) echo "usage: selftest.sh determinism [runs] | sensitivity"; exit 2 ;;
+silence)
+  # property-preserving changes (benign/): no check may raise an alarm on them
+  FAIL=0
+  while read -r NAME PROPS; do
+    for P in $PROPS; do
+      OUT=$(./try_patch.sh /verif/benign/$NAME.diff $P quick)
+      if echo "$OUT" | grep -q "^VIOLATION\|HARNESS-ERROR"; then echo "$NAME: ALARM from $P: $(echo "$OUT" | grep -m1 '^violation found\|HARNESS')"; FAIL=1; else echo "$NAME: $P silent"; fi
+    done
+  done <<'LIST'
+B1-reword C01 C02 C03 C04 C07 C08 C09 C10 C11 C12 C13 C15 C16 C18 C20
+B2-cap C02 C04 C08 C10 C18
+B3-revorder C03 C08 C09 C11 C18
+B4-record-first C08 C09 C10 C11
+B5-linear-responder C02 C04 C10 C12
+B6-loop-scan C01 C07 C08 C10 C11
+LIST
+  exit $FAIL ;;
+*) echo "usage: selftest.sh determinism [runs] | sensitivity [glob] | silence"; exit 2 ;;
 esac
